@@ -363,6 +363,24 @@ func (g *Gen) SameWeightValue(w uint64) []byte {
 	}
 }
 
+// Upd calls t.Update with caller-owned copies of key and value and overwrites both buffers after the call returned:
+// key and value belong to the caller, nothing the trie keeps may point into them.
+func Upd(t *wmpt.WeightedMerkleTrie, k, v []byte, w uint64) error {
+	kb := append([]byte(nil), k...)
+	var vb []byte
+	if len(v) > 0 {
+		vb = append([]byte(nil), v...)
+	}
+	err := t.Update(kb, vb, w)
+	for i := range kb {
+		kb[i] ^= 0xa5
+	}
+	for i := range vb {
+		vb[i] ^= 0xa5
+	}
+	return err
+}
+
 // Key returns a 32-byte key; with existing keys it often copies a random-length nibble prefix (0..63 nibbles) of one.
 func (g *Gen) Key(existing []string) []byte {
 	k := make([]byte, 32)
